@@ -16,7 +16,7 @@ RULE = ('synthetic structures of 2-5 chains (1-12 atoms each, table order contig
         '(" H  ", " HA ", "1HB ", "HD11") / names containing but not starting with H / blank; every structure is run with 2 cutoffs x all ordered '
         'chain pairs x the 8 combinations of only_backbone_atoms/excludeH/return_contact_pairs, and with allchains x the same 8; plus a malformed '
         'stream (unknown chain, chain paired with itself, single-chain allchains, negative and zero cutoff) and the bundled 3CRO at 8.5 / 6.0 A '
-        '(thorough: 3CRO_H and the 1AK4 files). The model receives the exact rationals of the doubles the library parsed. A case is counted '
+        '(thorough: further option combinations, all four chains of 3CRO, 3CRO_H, 1AK4 target and 10w; a few corpus structures run first). The model receives the exact rationals of the doubles the library parsed. A case is counted '
         'non-trivial when its result is non-empty or an exception, distinct by (structure, arguments).')
 ASSUMPTIONS = ['single-model files (no ENDMDL): with models get() returns one list per model and get_contact_atoms is not defined',
                'floating-point distance equals the exact distance decision: generated distances are exactly on a cutoff (lattice values, exact in binary64) '
@@ -355,9 +355,10 @@ def malformed_cases(ctx, op, n):
     return out
 
 
-def file_cases(ctx, op, extends=(False,)):
-    """bundled structures (set equality through the drivers). quick: 3CRO chains A/B at 8.5 and 6.0 A; thorough adds the other
-    option combinations, all chains of 3CRO (4 chains), 3CRO_H and the 1AK4 files"""
+def file_cases(ctx, op, extends=(False,), heavy=True):
+    """bundled structures (set equality through the drivers). quick: 3CRO chains A/B at 8.5 and 6.0 A; thorough adds other
+    option combinations, all chains of 3CRO (4 chains), 3CRO_H and 1AK4 (exact rational arithmetic on ~10^6 atom pairs per case:
+    40-75 s each, hence only a few)"""
     out = []
     src = {'pdb': os.path.join(PDBDIR, '3CRO.pdb')}
     ext = extends[-1]
@@ -366,19 +367,18 @@ def file_cases(ctx, op, extends=(False,)):
     if ctx.thorough:
         out.append(mk(op, src, 6.0, False, 'A', 'B', False, False, False, ext, 'file:3CRO'))
         out.append(mk(op, src, 8.5, False, 'B', 'A', True, False, True, False, 'file:3CRO'))
-        out.append(mk(op, src, 6.0, True, 'A', 'B', False, False, False, ext, 'file:3CRO:allchains'))
-        out.append(mk(op, src, 6.0, True, 'A', 'B', True, False, True, False, 'file:3CRO:allchains'))
-        out.append(mk(op, src, 8.5, True, 'A', 'B', False, True, False, ext, 'file:3CRO:allchains'))
         out.append(mk(op, src, 8.5, False, 'L', 'R', True, True, True, False, 'file:3CRO'))
+        out.append(mk(op, src, 6.0, True, 'A', 'B', True, False, True, False, 'file:3CRO:allchains'))
         srch = {'pdb': os.path.join(PDBDIR, '3CRO_H.pdb')}
-        for noH in (False, True):
-            out.append(mk(op, srch, 6.0, False, 'A', 'B', False, noH, False, ext, 'file:3CRO_H'))
-            out.append(mk(op, srch, 5.0, False, 'A', 'B', False, noH, True, False, 'file:3CRO_H'))
-        for fn in sorted(os.listdir(os.path.join(PDBDIR, '1AK4'))):
-            if fn.endswith('.pdb'):
-                s2 = {'pdb': os.path.join(PDBDIR, '1AK4', fn)}
-                out.append(mk(op, s2, 8.5, False, 'A', 'B', False, False, False, ext, 'file:1AK4'))
-                out.append(mk(op, s2, 5.0, False, 'B', 'A', False, True, True, False, 'file:1AK4'))
+        out.append(mk(op, srch, 6.0, False, 'A', 'B', False, True, False, ext, 'file:3CRO_H'))
+        out.append(mk(op, srch, 5.0, False, 'A', 'B', False, False, True, False, 'file:3CRO_H'))
+        s2 = {'pdb': os.path.join(PDBDIR, '1AK4', 'target.pdb')}
+        out.append(mk(op, s2, 5.0, False, 'B', 'A', False, True, True, False, 'file:1AK4'))
+        if heavy:
+            out.append(mk(op, src, 6.0, True, 'A', 'B', False, False, False, ext, 'file:3CRO:allchains'))
+            out.append(mk(op, s2, 8.5, False, 'A', 'B', False, False, False, ext, 'file:1AK4'))
+            s3 = {'pdb': os.path.join(PDBDIR, '1AK4', '1AK4_10w.pdb')}
+            out.append(mk(op, s3, 5.0, False, 'A', 'B', False, True, True, False, 'file:1AK4'))
     return out
 
 
@@ -412,7 +412,7 @@ def corpus(ctx, op='contact_atoms', extends=(False,)):
 
 
 def cases(ctx):
-    out = structure_cases(ctx, 'contact_atoms', ctx.scale(36, 400))
+    out = structure_cases(ctx, 'contact_atoms', ctx.scale(36, 220))
     out += malformed_cases(ctx, 'contact_atoms', ctx.scale(6, 40))
     out += file_cases(ctx, 'contact_atoms')
     return out
